@@ -607,7 +607,7 @@ def exPCodec : CFields :=
               (.cons 7 true true false (.slice (.ptr (.ptr (.struct Lemmas.ProtoMap.Findings.exInnerC))) 7 .varlen true) .nil))))))
 theorem exP_codec : fieldsOf 1 exPFields = exPCodec := by
   have hm : (lookupProtobuf "").bind parseStructTag = none := modelTag_empty
-  simp [exPFields, exInner, exPCodec, Lemmas.ProtoMap.Findings.exInnerC, codecOf, fieldsOf, hm, fieldCodecOf, isStructBase, baseTy,
+  simp [exPFields, exInner, exPCodec, Lemmas.ProtoMap.Findings.exInnerC, codecOf, fieldsOf, hm, fieldCodecOf, isStructBase, embBase, baseTy,
     Codec.wire]
 theorem exP_len : (marshal (.struct exPFields) (.struct exPVals)).length < 2 ^ 64 := by
   rw [marshal_struct, exP_codec]; decide
@@ -667,7 +667,7 @@ theorem exQ_ty : tyOK3 (.struct exQFields) = true := by
 theorem exQ_codec : fieldsOf 1 exQFields
     = .cons 1 false true false (.slice (.ptr .int32) 1 .varint false) (.cons 2 false false false (.ptr (.ptr .int32)) .nil) := by
   have hm : (lookupProtobuf "").bind parseStructTag = none := modelTag_empty
-  simp [exQFields, codecOf, fieldsOf, hm, fieldCodecOf, isStructBase, baseTy, Codec.wire]
+  simp [exQFields, codecOf, fieldsOf, hm, fieldCodecOf, isStructBase, embBase, baseTy, Codec.wire]
 theorem exQ_depth : Codec.nesting (codecOf (.struct exQFields)) ≤ Gen.c_proto_maxDepth := by
   have : codecOf (.struct exQFields) = .struct (fieldsOf 1 exQFields) := by simp [codecOf]
   rw [this, exQ_codec]; decide
